@@ -21,6 +21,9 @@ def explore(ctx, art):
     lines = ["case %s %s %s %s" % (t, o, p, c) for t in ("udp", "tcp") for o in OPS for p in POINTS for c in CAUSES]
     if ctx.tier == "thorough":
         lines = lines * 3     # the scheduler inside a bubble is not seeded: repeat the grid
+    # datagram session whose reader returns (and completes the done signal) only 50 ms after Close(): a pending operation
+    # must return on Close(), not on the completion of the shutdown
+    lines += ["case udp %s slowrun %s" % (o, c) for o in OPS for c in ("close", "cancel")]
     # "during send": the stream peer has stopped reading, the frame write is blocked in the transport (real time)
     lines += ["case tcp %s stalled %s" % (o, c) for o in OPS for c in CAUSES]
     # server side (real sockets, real time): a blocked DiscoveryRequest; Stop() with 0/1/3 connections whose handlers block
